@@ -1,6 +1,6 @@
 #!/bin/bash
 # tools/runall.sh [tier]: every claimed check once on /repo as it is; summary line per property
-cd /verif; tier=${1:-quick}
+cd "$(dirname "$0")/.."; tier=${1:-quick}
 for p in $(python3 -c "import json;print(' '.join(c['property_id'] for c in json.load(open('MANIFEST.json'))['checks']))"); do
   t0=$(date +%s); out=$(./check $p --tier $tier 2>/dev/null); rc=$?; t1=$(date +%s)
   echo "$p rc=$rc $((t1-t0))s viol=$(echo "$out" | grep -c '^VIOLATION') known=$(echo "$out" | grep -c '^KNOWN-FINDING')"
